@@ -244,9 +244,9 @@ def shapes(n, max_batches=3, max_rows=3):
           if len(c) <= max_batches and max(c, default=0) <= max_rows]
 
 
-def streams(family, max_rows_total):
+def streams(family, min_rows_total, max_rows_total):
   """Tuples of batches; a batch is a tuple of rows (a, b, v)."""
-  for n in range(max_rows_total + 1):
+  for n in range(min_rows_total, max_rows_total + 1):
     if family == 'tagged':  # v = square of the 1-based global row index
       rowseqs = ([(a, b, (i + 1) ** 2) for i, (a, b) in enumerate(f)]
                  for f in itt.product(FEATS, repeat=n))
@@ -444,27 +444,27 @@ def _unit(args):
 
 
 def plan(quick):
-  """[(family, max total rows, cfgs, max slicer subset size)]."""
+  """[(family, min total rows, max total rows, cfgs, max slicer subset size)]."""
   every = tuple(CONFIGS)
   numeric = ('mean-tuple-ndarray', 'collect-unsliced+mv', 'mv+collect-unsliced')
   if quick:
-    return [('tagged', 3, every, 2), ('alphabet', 2, numeric, 1)]
-  return [('tagged', 4, every, 3), ('alphabet', 3, numeric, 1)]
+    return [('tagged', 0, 3, every, 2), ('alphabet', 0, 2, numeric, 1)]
+  return [('tagged', 0, 3, every, 3), ('tagged', 4, 4, every, 2),
+          ('alphabet', 0, 3, numeric, 1)]
 
 
 def run(ctx):
   pl = plan(ctx.quick)
-  units = []
-  for family, nmax, cfgs, max_subset in pl:
-    ss = ctx.shuffled(streams(family, nmax))
-    ctx.notes[f'streams_{family}'] = len(ss)
+  units, per_cfg = [], {}
+  for family, lo, hi, cfgs, max_subset in pl:
+    ss = ctx.shuffled(streams(family, lo, hi))
+    ctx.notes[f'streams_{family}_rows_{lo}_to_{hi}'] = len(ss)
     for cfg in cfgs:
-      per = max(1, (800 if ctx.quick else 4000)
-                // max(1, len(list(subsets_of(cfg, max_subset)))))
+      nsub = len(list(subsets_of(cfg, max_subset)))
+      per_cfg[f'{family}[{lo}..{hi} rows]/{cfg}'] = nsub
+      per = max(1, (800 if ctx.quick else 4000) // max(1, nsub))
       units += [(family, cfg, max_subset, ss[i:i + per])
                 for i in range(0, len(ss), per)]
-  per_cfg = {f'{family}/{cfg}': len(list(subsets_of(cfg, m)))
-             for family, _, cfgs, m in pl for cfg in cfgs}
   ctx.notes['programs'] = sum(per_cfg.values())
   ctx.notes['slicer_subsets_per_configuration'] = per_cfg
   ctx.rule = (
@@ -472,17 +472,18 @@ def run(ctx):
       'MeanAndVariance; str, tuple, dict output keys; positional and keyword '
       'input keys; single or two stacked aggregates, one with disable_slicing, '
       'flat or nested (2 elements per row) input columns, list or ndarray '
-      'columns) x every subset of size <= %d of the slicer menu %s (nested '
+      'columns) x every subset of size <= k of the slicer menu %s (nested '
       'programs: %s, plus brep for the nested Collect program), subsets with '
-      'duplicate slice names excluded; streams: '
-      'family "tagged" = every row sequence with total rows <= %d over features '
-      'a,b in {1,2} (value = square of the row index) cut in every way into <= 3 '
-      'non-empty batches of <= 3 rows, incl. the empty stream; family '
-      '"alphabet" = same with value in {1,4,9}, total rows <= %d, numeric '
-      'aggregate configurations, <= 1 slicer; drivers call / iterate / '
+      'duplicate slice names excluded; streams: family "tagged" = every row '
+      'sequence over features a,b in {1,2} (value = square of the row index) '
+      'cut in every way into <= 3 non-empty batches of <= 3 rows, incl. the '
+      'empty stream; family "alphabet" = same with value in {1,4,9}, numeric '
+      'aggregate configurations only; bounds (family, total rows, k): %s; '
+      'drivers call (one-batch and empty streams) / iterate / '
       'update_state+merge_states+get_result; non-trivial = non-empty stream; '
       'distinct = distinct (driver, configuration, slicer subset, stream)'
-      % (pl[0][3], list(FLAT_MENU), list(NESTED_MENU), pl[0][1], pl[1][1]))
+      % (list(FLAT_MENU), list(NESTED_MENU),
+         [(f, f'{lo}..{hi}', k) for f, lo, hi, _, k in pl]))
   ctx.assumptions += [
       'a slice is fed only from the batches in which it occurs; in replace mode '
       'the non-members of those batches are replaced, other batches add nothing',
